@@ -199,7 +199,7 @@ def abstract(rng, sig, cur, fresh):
     lhs = cur
     paths = [(p, t) for p, t in subterm_paths(cur) if p and functional_headed(sig, t)]
     rng.shuffle(paths)
-    for p, t in paths[:rng.randint(0, 3)]:
+    for p, t in paths[:rng.choice([0, 1, 1, 2, 2, 3])]:
         # the path must still exist and hold the same subterm
         node = lhs
         ok = True
@@ -309,7 +309,7 @@ def gen_trace_case(rng, idx):
     # ---- deliberate perturbations
     r = rng.random()
     mut = 'none'
-    if steps and r < 0.45:
+    if steps and r < 0.6:
         j = rng.randrange(len(steps))
         o, order, nxt = steps[j]
         choice = rng.choice(['wrong-value', 'wrong-value', 'wrong-rule', 'drop-step', 'swap', 'init', 'unknown-var',
@@ -517,6 +517,234 @@ def rule_of_axiom(ax):
 
 
 # ------------------------------------------------------------------------------------------------
+# HINTS cases: ExecutionProofExp.from_proof_hints on hint objects whose patterns are given directly
+# (expanded patterns as prefix trees: leaves 'm3' 'e0' 's0' 'y<hex>', ('I',l,r) ('A',l,r) ('X<n>',p) ('U<n>',p))
+# ------------------------------------------------------------------------------------------------
+
+def Y(name):
+    return 'y' + hx(name)
+
+
+def t_neg(p):
+    return ('I', p, BOT)
+
+
+def t_and(a, b):
+    return t_neg(('I', a, t_neg(b)))
+
+
+def t_or(a, b):
+    return ('I', t_neg(a), b)
+
+
+def t_rw(s, l, r, inh=None, nxt=None, bots=(BOT, BOT, BOT, BOT)):
+    """kore_rewrites spelled out; the optional arguments produce near misses"""
+    inh = INH if inh is None else inh
+    nxt = NEXT if nxt is None else nxt
+    b1, b2, b3, b4 = bots
+    return ('I', ('I', ('I', ('I', ('I', l, b1), ('I', ('A', inh, s), b2)), b3), b4), ('A', nxt, r))
+
+
+def t_inst(d, t):
+    if isinstance(t, str):
+        return d.get(int(t[1:]), t) if t[0] == 'm' else t
+    return (t[0],) + tuple(t_inst(d, x) for x in t[1:])
+
+
+def t_str(t):
+    return ' '.join(flatten(t))
+
+
+def t_paths(t, path=()):
+    yield path, t
+    if not isinstance(t, str):
+        for i, x in enumerate(t[1:]):
+            yield from t_paths(x, path + (i + 1,))
+
+
+def t_replace(t, path, new):
+    if not path:
+        return new
+    l = list(t)
+    l[path[0]] = t_replace(l[path[0]], path[1:], new)
+    return tuple(l)
+
+
+def t_head(t):
+    while not isinstance(t, str) and t[0] == 'A':
+        t = t[1]
+    return t
+
+
+def t_functional(sig, t):
+    h = t_head(t)
+    if not isinstance(h, str) or h[0] != 'y':
+        return False
+    name = bytes.fromhex(h[1:]).decode('utf-8') if h[1:] != '-' else ''
+    if not name.startswith('ksym_'):
+        return False
+    y = next((z for z in sig[1] if z['name'] == name[5:]), None)
+    return bool(y and y['fn'])
+
+
+def gen_gtree(rng, sig, depth, functional_head=True):
+    syms = sig[1]
+    cands = [y for y in syms if y['fn'] or not functional_head]
+    if depth <= 0:
+        cands = [y for y in cands if y['narg'] == 0] or cands
+    y = rng.choice(cands)
+    t = Y('kore_kseq') if y['name'] == 'kseq' else Y('ksym_' + y['name'])
+    for _ in range(y['npar']):
+        t = ('A', t, Y('ksort_' + rng.choice(sig[0])))
+    for _ in range(y['narg']):
+        t = ('A', t, gen_gtree(rng, sig, depth - 1 if depth > -2 else -2, functional_head=depth > -2 and rng.random() < 0.7))
+    return t
+
+
+def gen_hints_case(rng, idx):
+    sig = gen_sig(rng)
+    n = rng.choice([0, 1, 2, 2, 3, 3, 4, 5, 6, 8])
+    srt = rng.choice([Y('ksort_' + sig[0][0]), 'm100', Y('anything')])
+    cur = gen_gtree(rng, sig, rng.randint(0, 2))
+    before0 = cur
+    hints = []          # [before, after, kind, ord, rule, delta(list of pairs)]
+    ids = [0, 1, 2, 3, 7, 99, 101, 255]
+    for i in range(n):
+        theta, lhs = [], cur
+        used = set()
+        cand = [(p, t) for p, t in t_paths(cur) if p and t_functional(sig, t)]
+        rng.shuffle(cand)
+        for p, t in cand[:rng.randint(0, 2)]:
+            node = lhs
+            ok = True
+            for j in p:
+                if isinstance(node, str) or j >= len(node):
+                    ok = False
+                    break
+                node = node[j]
+            if not ok or node != t:
+                continue
+            k = rng.choice([x for x in ids if x not in used])
+            used.add(k)
+            theta.append((k, t))
+            lhs = t_replace(lhs, p, 'm%d' % k)
+        rhs = gen_gtree(rng, sig, rng.randint(0, 2))
+        if theta and rng.random() < 0.7:
+            ps = [p for p, t in t_paths(rhs) if p and p[-1] == 2]
+            if ps:
+                rhs = t_replace(rhs, rng.choice(ps), 'm%d' % rng.choice(theta)[0])
+            else:
+                rhs = 'm%d' % theta[0][0]
+        rule = t_rw(srt, lhs, rhs)
+        d = dict(theta)
+        nxt = t_inst(d, rhs)
+        hints.append([cur, nxt, 'R', i, rule, theta])
+        cur = nxt
+    mut = 'none'
+    if hints and rng.random() < 0.55:
+        j = rng.randrange(len(hints))
+        h = hints[j]
+        mut = rng.choice(['near-miss', 'near-miss', 'wrong-delta', 'equational', 'nonfunctional', 'before', 'meta-rule',
+                          'extra-delta', 'repeat', 'drop', 'not-a-rewrite', 'after-lie'])
+        if mut == 'near-miss':
+            _, (_, (_, (_, (_, l, _), _), _), _), (_, _, r) = h[4]
+            other = rng.choice([('U1', 's1'), ('U0', 's1'), ('U1', 's0'), Y('bot'), ('I', BOT, BOT)])
+            bots = [BOT] * 4
+            which = rng.randrange(6)
+            if which < 4:
+                bots[which] = other
+                h[4] = t_rw(srt, l, r, bots=tuple(bots))
+            elif which == 4:
+                h[4] = t_rw(srt, l, r, inh=Y(rng.choice(['inhabitants', 'kore_next', ''])))
+            else:
+                h[4] = t_rw(srt, l, r, nxt=Y(rng.choice(['kore-next', 'inhabitant', 'kore_nex'])))
+        elif mut == 'wrong-delta' and h[5]:
+            k = rng.randrange(len(h[5]))
+            new = gen_gtree(rng, sig, 1)
+            if new == h[5][k][1]:
+                mut = 'none'
+            h[5][k] = (h[5][k][0], new)
+        elif mut == 'equational':
+            h[2] = 'Q'
+        elif mut == 'nonfunctional':
+            bad = rng.choice(['e3', 's1', 'm42', Y('foo'), Y('kore_kseq'), ('A', Y('kore_dv'), Y('0')), BOT, ('X0', 'e0'),
+                              ('A', 'm1', Y('ksym_' + sig[1][0]['name']))])
+            nf = [y for y in sig[1] if not y['fn']]
+            if nf and rng.random() < 0.5:
+                bad = Y('ksym_' + rng.choice(nf)['name'])
+            if h[5]:
+                h[5][0] = (h[5][0][0], bad)
+            else:
+                h[5].append((200, bad))
+        elif mut == 'before' and j == 0:
+            h[0] = gen_gtree(rng, sig, 1)
+            if h[0] == before0:
+                mut = 'none'
+        elif mut == 'meta-rule':
+            h[5] = h[5] + [(9, t_inst(dict(h[5]), h[4]))]
+            h[4] = 'm9'
+        elif mut == 'extra-delta':
+            h[5] = h[5] + [(rng.choice([50, 150, 254]), gen_gtree(rng, sig, 1))]
+        elif mut == 'repeat':
+            hints.insert(j + 1, [h[0], h[1], h[2], h[3], h[4], list(h[5])])
+        elif mut == 'drop' and len(hints) > 1:
+            del hints[j]
+        elif mut == 'not-a-rewrite':
+            h[4] = rng.choice(['m0', ('I', h[0], h[1]), t_and(h[0], h[1]), ('A', NEXT, h[1]), Y('ksym_a')])
+        elif mut == 'after-lie':
+            h[1] = gen_gtree(rng, sig, 1)
+        else:
+            mut = 'none'
+    return dict(idx=idx, sig=sig, hints=hints, mutation=mut)
+
+
+def hints_line(case):
+    out = ['HINTS', tok_sig(case['sig']), str(len(case['hints']))]
+    for before, after, kind, o, rule, delta in case['hints']:
+        out += [t_str(before), t_str(after), kind, str(o), t_str(rule), str(len(delta))]
+        for i, v in delta:
+            out += [str(i), t_str(v)]
+    return ' '.join(out)
+
+
+def oracle_hints(case, impl):
+    """independent judgement of a HINTS outcome from the hint objects themselves"""
+    probs = []
+    hs = case['hints']
+    exp_claims = [t_str(t_inst(dict(h[5]), h[4])) for h in hs]
+    # does the trace chain, are all rules rewriting rules, all values functional?  (reference reading)
+    ok, why = True, ''
+    cur = hs[0][0] if hs else None
+    for h in hs:
+        if h[2] != 'R':
+            ok, why = False, 'equational rule'
+            break
+        sp = split_rewrites(t_inst(dict(h[5]), h[4]))
+        if sp is None:
+            ok, why = False, 'instantiated rule is not a rewrite'
+            break
+        if sp[1] != cur:
+            ok, why = False, 'step does not start from the current configuration'
+            break
+        if not all(t_functional(case['sig'], v) for _, v in h[5]):
+            ok, why = False, 'substituted value is not an application of a functional symbol'
+            break
+        cur = sp[2]
+    if impl['res'].startswith('OK'):
+        claims = split_list(impl['res'], 'C')
+        if claims != exp_claims:
+            probs.append(('claim-differs-from-instantiated-rule', 'claims are not the instantiated rule patterns of the hints, in order'))
+        if split_list(impl['res'], 'P') != claims:
+            probs.append(('proofs-do-not-conclude-claims', 'conclusions of proof expressions differ from claims'))
+        if not ok:
+            probs.append(('bad-trace-accepted', 'hint list accepted although: ' + why))
+    elif impl['res'] == 'NONE' and ok:
+        probs.append(('chained-trace-refused', 'hint list refused although it chains, uses rewriting rules and functional values: '
+                      + impl.get('exc', '')))
+    return probs, ('accept' if ok else 'refuse'), why
+
+
+# ------------------------------------------------------------------------------------------------
 
 def build():
     ok, log, exe = C.build_mlref('k', 'Extract/ExtractK.v', 'k_model', 'k_driver.ml', 'mlref_k',
@@ -626,7 +854,7 @@ def oracle_trace(case, impl, conv):
             probs.append(('bad-trace-accepted', f'trace accepted although: {why}'))
     elif impl['res'] == 'NONE':
         if impl.get('stage') == 'run' and expect == 'accept':
-            if len(seen) < len(claims_exp):
+            if len(seen) < len(claims_exp) and impl.get('exc', '').strip() == 'AssertionError:':
                 probs.append(('duplicate-claim-refused', 'chained trace refused; the same instantiated rewrite occurs twice in it '
                               '(a cycle): ' + impl.get('exc', '')))
             else:
@@ -651,6 +879,7 @@ def run(tier, seed):
     rng = C.rng_for(seed, CID)
     n_tr = 220 if tier == 'quick' else 6000
     n_cv = 500 if tier == 'quick' else 20000
+    n_hi = 300 if tier == 'quick' else 8000
 
     P = R.proof_stage()
     proof_broken = not P['ok']
@@ -680,7 +909,9 @@ def run(tier, seed):
         st = dict(names=rng.sample(['X', 'Y', 'Z', 'X1', 'Var', 'x'], rng.randint(1, 4)), malformed=rng.random() < 0.3)
         conv_cases.append((sig, gen_conv_term(rng, sig, rng.randint(0, 4), st), st['malformed']))
 
-    lines = [d['line'] for _, d in corpus_lines] + [gen_line(c) for c in cases] + [conv_line(s, k) for s, k, _ in conv_cases]
+    hcases = [gen_hints_case(rng, i) for i in range(n_hi)]
+    lines = ([d['line'] for _, d in corpus_lines] + [gen_line(c) for c in cases] + [conv_line(s, k) for s, k, _ in conv_cases]
+             + [hints_line(c) for c in hcases])
     impl, errs = run_impl(lines)
     for e in errs:
         R.notes.append('runner stderr: ' + e)
@@ -736,7 +967,7 @@ def run(tier, seed):
         kind = ('accepted-len%d' % nclaims) if accepted else 'refused:' + im.get('stage', '?') + ':' + im.get('exc', '?').split(':')[0]
         R.case(lines[i], accepted and nclaims > 0 or not accepted, kind)
         R.hist['mutation:' + c['mutation']] = R.hist.get('mutation:' + c['mutation'], 0) + 1
-        R.hist['expect:' + expect] = R.hist.get('expect:' + expect, 0) + 1
+        R.hist['expect:' + expect + (':' + why if why else '')] = R.hist.get('expect:' + expect + (':' + why if why else ''), 0) + 1
         if accepted and i in rust_out:
             R.hist['rust:' + rust_out[i]] = R.hist.get('rust:' + rust_out[i], 0) + 1
             if rust_out[i] != 'ACCEPT':
@@ -762,6 +993,31 @@ def run(tier, seed):
                         dict(line=lines[i], impl=im['res']))
         if k < 2:
             R.sample(dict(conv=short(lines[i], 300), result=short(im['res'], 200)))
+
+    # ---- hint-object cases
+    for k, c in enumerate(hcases):
+        i = nc + len(cases) + len(conv_cases) + k
+        im = impl[i]
+        probs, expect, why = oracle_hints(c, im)
+        accepted = im['res'].startswith('OK')
+        nclaims = len(split_list(im['res'], 'C')) if accepted else 0
+        R.case(lines[i], nclaims > 0 or not accepted,
+               'hints-accepted-len%d' % nclaims if accepted else 'hints-refused:' + im.get('exc', '?').split(':')[0])
+        R.hist['hints-mutation:' + c['mutation']] = R.hist.get('hints-mutation:' + c['mutation'], 0) + 1
+        R.hist['hints-expect:' + expect + (':' + why if why else '')] = R.hist.get('hints-expect:' + expect + (':' + why if why else ''), 0) + 1
+        if accepted and i in rust_out:
+            R.hist['hints-rust:' + rust_out[i]] = R.hist.get('hints-rust:' + rust_out[i], 0) + 1
+            if rust_out[i] != 'ACCEPT':
+                probs.append(('module-rejected-by-checker', 'serialised module is not accepted by the Rust checker: ' + rust_out[i]))
+        if accepted and 'ser_exc' in im:
+            R.hist['hints-serialise-failed:' + im['ser_exc'].split(':')[0]] = R.hist.get('hints-serialise-failed:' + im['ser_exc'].split(':')[0], 0) + 1
+        if k < 2:
+            R.sample(dict(hints_mutation=c['mutation'], expect=expect, why=why, result=short(im['res'], 160), exc=im.get('exc'),
+                          rust=rust_out.get(i), line=short(lines[i], 400)))
+        for sig_, desc in probs:
+            R.violation(sig_, desc, dict(line=lines[i], mutation=c['mutation'], expectation=expect, why=why,
+                                         impl=short(im['res'], 3000), exc=im.get('exc'), rust=rust_out.get(i),
+                                         model=short(model[i], 3000)))
 
     # ---- refutation witnesses of Props/C20.v replayed on the implementation (known findings / fixed defects)
     judge_witnesses(R, corpus_lines, impl[:nc])
